@@ -889,8 +889,9 @@ class SynthDef(metaclass=MetaSynthDef):
         dir = pathlib.Path(dir)
         path = dir / f'{self._name}.{self._SUFFIX}'
         if not self._metadata.get('reconstructed', False):
+            data = self.as_bytes()  # Before the file is truncated.
             with open(path, 'wb') as file:
-                self._write_def_list([self], file)
+                file.write(data)
             desc = sdc.SynthDesc.new_from(self)
             desc.metadata = self._metadata
             sdc.SynthDesc.populate_metadata_func(desc)
